@@ -227,7 +227,7 @@ def gen_queries(rng, tab, nq):
     return out
 
 
-def run_probes(kind, z, table, queries, single=False):
+def run_probes(kind, z, table, queries, single=False, decoy=None):
     """queries [(class, I, V)] -> list of (class, I, V, row | None); the mux takes one system per query"""
     args = comp_args(kind, z, table)
     groups = [[q] for q in queries] if (kind == "pmux" or single) else [queries]
@@ -237,6 +237,8 @@ def run_probes(kind, z, table, queries, single=False):
         branches = [{"v": v, "i": i, "kind": kind, "args": args, "dead_first": kind == "pmux" and gi % 2 == 1}
                     for (_c, i, v) in g]
         desc, names = probe.probe_desc(branches)
+        if decoy is not None:
+            desc["_decoys"] = [{"kind": kind, "args": comp_args(kind, z, decoy)}]
         rows, obs, sys_, df, err = probe.solve_probe(desc)
         for (c, i, v), n in zip(g, names):
             out.append((c, i, v, None if err is not None else rows[n], err))
@@ -257,7 +259,7 @@ def check_table(ctx, kind, z, table, queries, case, f11=False, fine=False):
     """one table: probes, correspondence with the model, oracle; returns the number of usable probes"""
     tab = Tab(table, z)
     args = comp_args(kind, z, table)
-    res = run_probes(kind, z, table, queries, single=fine)
+    res = run_probes(kind, z, table, queries, single=fine, decoy=case.get("decoy") if isinstance(case, dict) else None)
     usable = []
     for (c, i, v, row, err) in res:
         if f11 and err is not None and err[0] == "build" and probe.exc_name(err[1]) == "ValueError":
@@ -496,6 +498,11 @@ def run(ctx):
         if t["io"][0] < 0 or any(v < 0 for v in t["vi"]):
             ctx.stats["negative_axis_entry"] += 1
         case = {"kind": kind, "z": z, "table": t, "queries": queries}
+        if tab.dim == 2 and ctx.rng.random() < 0.25:
+            # a sibling part characterised on the same grid (same axis values, rows listed in another order, other entries) was created
+            # earlier in the process: tables are per component
+            case["decoy"] = gen.decoy_table(ctx.rng, t, z)
+            ctx.stats["with_decoy_on_same_grid"] += 1
         check_table(ctx, kind, z, t, queries, case)
         if ctx.rng.random() < 0.25:
             check_sign(ctx, kind, z, t, queries, case)
